@@ -2,7 +2,7 @@
 (Model/Lattices/Color666PlanarCode.lean) tied to
 panqec/codes/color_2d/_color_666_planar_code.py."""
 CLASS = 'Color666PlanarCode'
-LEAN_MODULES = []
+LEAN_MODULES = ['PanqecVerif.Properties.C01Color666PlanarCode']
 
 
 def streams(ctx):
